@@ -31,7 +31,7 @@
                             backend has invoked, with the id of the request it was handed out
                             for, at most once.  Proved in Broker/ConnProofsA_resp2.v as
                             c20_responses_holds; to restate it here add
-                              Theorem C07_ack_after_accept : forall es s, bc_run es = Some s -> c20_responses es = true.
+                              (stated below as C07_ack_after_accept)
                               Proof. exact ConnProofsA_resp2.c20_responses_holds. Qed.)
 
    Exactly-once.  A handshake of id starts when a PUBLISH id is saved in the incoming store; a
@@ -56,9 +56,17 @@
 From Coq Require Import List NArith Bool.
 From Coq.Strings Require Import Byte.
 From GM Require Import Base.Lts Codec.Packet Session.Store Broker.Conn Broker.ConnSpec
-  Broker.ConnProofsB0 Broker.ConnProofsB2 Broker.ConnProofsB5 Broker.ConnProofsB6 Broker.ConnProofsB7.
+  Broker.ConnProofsB0 Broker.ConnProofsB2 Broker.ConnProofsB5 Broker.ConnProofsB6 Broker.ConnProofsB7
+  Broker.ConnSpec3 Broker.ConnProofsA_resp2 Broker.ConnProofsA_tok.
 Import ListNotations.
 Open Scope N_scope.
+
+(* PUBACK / PUBCOMP (and SUBACK / UNSUBACK) leave only for a request whose closure the backend
+   has invoked, with that request's id, at most once; the processor itself sends PUBCOMP only
+   for a PUBREL whose id the session does not know (clause c20_responses, shared with C20) *)
+Theorem C07_ack_after_accept : forall es s, bc_run es = Some s -> c20_responses es = true.
+Proof. exact c20_responses_holds. Qed.
+Print Assumptions C07_ack_after_accept.
 
 Theorem C07_pubrec_after_store : forall es s, bc_run es = Some s -> c07_pubrec_after_store es = true.
 Proof. exact pubrec_after_store. Qed.
